@@ -145,6 +145,22 @@ CLAIMED['C19'] = dict(
    technique="Coq proof (ownership invariant on a heap model; loop-invariant characterisation of the sweep's index array) + vm_compute correspondence",
    ref="DESIGN.md section 3, C19")
 
+CLAIMED['C05'] = dict(
+   text="Theorems about the chain/parallel-tempered machine: loading the state of a ladder p into ANY ladder of the same shape (fresh, other "
+        "seed, no start, or already run) gives a resume-equivalent ladder (iteration, current position/stats/blob, proposed position, active "
+        "set re-derived from the NaN pattern); resume-equivalence is preserved by every step and every temperature sweep for all input "
+        "streams, and equivalent ladders make observably the same record on every level at every iteration; hence a resumed run reproduces "
+        "the uninterrupted one, and so does a resume of a resumed run, any number of times (induction over segments). Proposals: a generic "
+        "theorem that set_state(state) into a fresh object reproduces every attribute when the family's table entry is covering, and a "
+        "finite check that all nine entries are. Tie: the table is compared with the live classes (keys of state, attributes changing while "
+        "running, attributes differing after a restore) and resume-heavy schedules are replayed on the Coq machine; direct oracle: "
+        "chains of 1-3 pickle resumes into fresh samplers (thorough: every cut point, new interpreter) against one uninterrupted run for "
+        "all 28 family variants, joint mixes with slow parameters, transdimensional, MH/PT, blobs, annealed ladders.",
+   note=MACH_NOTE + " The proposal family table is data: 'the attributes listed as dynamic are the only ones that change after construction' is "
+        "checked against the live objects on every run, not proved. The generator state is one opaque attribute.",
+   technique="Coq proof (bisimulation invariant by induction over steps, sweeps and resume segments; finite table check lifted by a frame theorem) + vm_compute correspondence",
+   ref="DESIGN.md section 3, C05")
+
 PENDING_REASON = "not yet claimed: model/theorems for this property are still being built (see DESIGN.md section 3); nothing is asserted about it"
 
 def main():
